@@ -48,7 +48,8 @@ Inductive constr :=
    note; it is not observable (kind, file, line of the error itself) and is not kept *)
 Record node := mkNode { nty : tyh; nrep : tyid; nsize : N; ncons : list constr }.
 
-Record st := mkSt { nodes : PositiveMap.t node; next : positive }.
+(* `tnames`: TypeChecker::type_names, the variables that name a blob or an enum (since 9c09349) *)
+Record st := mkSt { nodes : PositiveMap.t node; next : positive; tnames : list N }.
 
 (* ---------------------------------------------------------------- errors and the monad *)
 
@@ -217,12 +218,12 @@ Definition get_node (i : tyid) : M node := fun s =>
   end.
 
 Definition put_node (i : tyid) (n : node) : M unit := fun s =>
-  Ok (tt, mkSt (PositiveMap.add i n (nodes s)) (next s)).
+  Ok (tt, mkSt (PositiveMap.add i n (nodes s)) (next s) (tnames s)).
 
 (* fn push_type *)
 Definition push_type (t : tyh) : M tyid := fun s =>
   let i := next s in
-  Ok (i, mkSt (PositiveMap.add i (mkNode t i 1%N []) (nodes s)) (Pos.succ i)).
+  Ok (i, mkSt (PositiveMap.add i (mkNode t i 1%N []) (nodes s)) (Pos.succ i) (tnames s)).
 
 (* fn find *)
 Definition find (a : tyid) : M tyid := n <- get_node a ;; ret (nrep n).
@@ -262,9 +263,13 @@ Definition union (a b : tyid) : M unit :=
       (fun n => if Pos.eqb (nrep n) small then mkNode (nty n) big (nsize n) (ncons n) else n) (nodes s) in
     let root := mkNode (nty nbig) big (nsize nbig + nsize nsmall)%N
                        (fold_left (fun acc c => cinsert c acc) (ncons nsmall) (ncons nbig)) in
-    Ok (tt, mkSt (PositiveMap.add big root moved) (next s)).
+    Ok (tt, mkSt (PositiveMap.add big root moved) (next s) (tnames s)).
 
-Definition empty_st : st := mkSt (PositiveMap.empty node) 1.
+Definition empty_st : st := mkSt (PositiveMap.empty node) 1 [].
+
+(* self.type_names.insert(var) / self.type_names.contains(var) *)
+Definition add_type_name (v : N) : M unit := fun s => Ok (tt, mkSt (nodes s) (next s) (v :: tnames s)).
+Definition is_type_name (v : N) : M bool := fun s => Ok (existsb (N.eqb v) (tnames s), s).
 
 (* TypeChecker::new: one Unknown node per variable, in order; variable v has TyID v *)
 Fixpoint init_vars (n : nat) : M unit :=
